@@ -216,6 +216,65 @@ pub fn run() {
                         _ => "err".to_string(),
                     }
                 }
+                // what another node's sync sends
+                Some("updbatch") | Some("delbatch") => {
+                    let mut insts = vec![];
+                    for g in ws[1..].split(|w| *w == "|") {
+                        if !kv(g, "svc").is_empty() {
+                            insts.push(instance_of(g));
+                        }
+                    }
+                    let cmd = if ws[0] == "updbatch" { NamingCmd::UpdateBatch(insts) } else { NamingCmd::DeleteBatch(insts) };
+                    match a.send(cmd).await {
+                        Ok(Ok(_)) => "ok".to_string(),
+                        _ => "err".to_string(),
+                    }
+                }
+                Some("rmclients") => {
+                    let before = all_instances(&a).await;
+                    let ids: Vec<Arc<String>> = ws[1..].iter().filter(|w| !w.contains('=')).map(|w| Arc::new(w.to_string())).collect();
+                    match a.send(NamingCmd::RemoveClientsFromCluster(ids)).await {
+                        Ok(Ok(_)) => format!("ok before={} after={}", before, all_instances(&a).await),
+                        _ => "err".to_string(),
+                    }
+                }
+                Some("ipage") => {
+                    let cmd = NamingCmd::QueryInstancePage {
+                        service_key: skey(kv(&ws, "svc")),
+                        cluster: "".to_string(),
+                        only_healthy: kv(&ws, "ho") == "1",
+                        page_size: kv(&ws, "size").parse().unwrap_or(0),
+                        page_index: kv(&ws, "idx").parse().unwrap_or(0),
+                    };
+                    match a.send(cmd).await {
+                        Ok(Ok(NamingResult::InstanceInfoPage((total, list)))) => {
+                            let v: Vec<String> = list.iter().map(|i| show_inst(i, false)).collect();
+                            let mut raw: Vec<String> = match a.send(NamingCmd::QueryAllInstanceList(skey(kv(&ws, "svc")))).await {
+                                Ok(Ok(NamingResult::InstanceList(l))) => l.iter().map(|i| show_inst(i, false)).collect(),
+                                _ => vec![],
+                            };
+                            raw.sort();
+                            format!("ipage total={} page={} all={}", total, if v.is_empty() { "-".to_string() } else { v.join(",") },
+                                if raw.is_empty() { "-".to_string() } else { raw.join(",") })
+                        }
+                        _ => "err".to_string(),
+                    }
+                }
+                Some("selectone") => {
+                    let mut cands: Vec<String> = match a.send(NamingCmd::QueryAllInstanceList(skey(kv(&ws, "svc")))).await {
+                        Ok(Ok(NamingResult::InstanceList(l))) => l.iter().filter(|i| i.healthy && i.enabled).map(|i| format!("{}:{}", i.ip, i.port)).collect(),
+                        _ => vec![],
+                    };
+                    cands.sort();
+                    match a.send(NamingCmd::SelectOneInstance(skey(kv(&ws, "svc")))).await {
+                        Ok(Ok(NamingResult::SelectInstance(v))) => format!(
+                            "selectone got={} cands={}",
+                            v.map(|i| format!("{}:{}", i.ip, i.port)).unwrap_or("-".to_string()),
+                            if cands.is_empty() { "-".to_string() } else { cands.join(",") }
+                        ),
+                        _ => "err".to_string(),
+                    }
+                }
                 Some("timecheck") => match a.send(NamingCmd::PeekListenerTimeout).await {
                     Ok(Ok(_)) => "ok".to_string(),
                     _ => "err".to_string(),
